@@ -56,7 +56,7 @@ def lattice(tier):
     z = [1, 8, 14, 92, 7.5]
     P['zbl'] = list(itertools.product(z, z))
     P['zero'] = [()]
-    P['buck4'] = [(1388.773, 0.3623, 175.0, 1.2, 2.1, 2.6), (1000.0, 0.3, 30.0, 1, 2, 3), (500.0, 0.45, 60.0, 0.9, 1.5, 3.1), (2000.0, 0.25, 12.0, 1.5, 1.9, 2.2)]
+    P['buck4'] = [(1388.773, 0.3623, 175.0, 1.2, 2.1, 2.6), (1000.0, 0.3, 30.0, 1, 2, 3), (500.0, 0.45, 60.0, 0.9, 1.5, 3.1), (2000.0, 0.25, 12.0, 1.5, 1.9, 2.2), (1388.773, 0.3623, 0, 1.2, 2.1, 2.6), (900.0, 0.3, 0.0, 1.0, 1.5, 2.5)]
     if tier != 'quick':
         A2 = A + [1e-3, -1e4, 37]
         P['bornmayer'] = list(itertools.product(A2, rho + [0.05, 5.0]))
